@@ -91,7 +91,7 @@ theorem formatCore_some (fy : Nat → Str) (fo : Int → Str) (c : CalOps) (cale
     simp only [hp] at h
     by_cases ho : 1440 ≤ b.off.natAbs
     · simp [ho] at h
-    · simp only [ho, if_false] at h
+    · rw [if_neg ho] at h
       cases hr : refInstant c calendar units with
       | none => simp [hr] at h
       | some r =>
@@ -99,7 +99,8 @@ theorem formatCore_some (fy : Nat → Str) (fo : Int → Str) (c : CalOps) (cale
         simp only [hr] at h
         by_cases hv : c.valid (c.ofSec (t + 60 * b.off)) = false
         · simp [hv] at h
-        · simp only [hv, if_false, Option.some.injEq, Prod.mk.injEq] at h
+        · rw [if_neg hv] at h
+          simp only [Option.some.injEq, Prod.mk.injEq] at h
           obtain ⟨h1, h2⟩ := h
           subst h2
           refine ⟨p, b, rfl, by omega, rfl, by simpa using hv, h1.symm⟩
@@ -151,16 +152,19 @@ theorem refInstant_some (c : CalOps) (calendar units : Str) (t : Int) (mic : Boo
       obtain ⟨p, b⟩ := pb
       simp only [hk, hp] at h
       by_cases hm : p ∈ allowedUnits
-      · simp only [hm, if_true, bitsInstant] at h
+      · rw [if_pos hm] at h
+        unfold bitsInstant at h
         by_cases hv : c.valid b.f = false
         · simp [hv] at h
-        · simp only [hv, if_false] at h
+        · rw [if_neg hv] at h
           by_cases hr : c.toSec b.f - 60 * b.off < c.toSec firstFields ∨ c.toSec lastFields < c.toSec b.f - 60 * b.off
           · simp [hr] at h
-          · simp only [hr, if_false] at h
+          · simp only [] at h
+            rw [if_neg hr] at h
             by_cases hpy : pythonDate k (c.ofSec (c.toSec b.f - 60 * b.off)) = false
             · simp [hpy] at h
-            · simp only [hpy, if_false, Option.some.injEq, Prod.mk.injEq] at h
+            · rw [if_neg hpy] at h
+              simp only [Option.some.injEq, Prod.mk.injEq] at h
               obtain ⟨h1, h2⟩ := h
               refine ⟨k, p, b, rfl, rfl, hm, by simpa using hv, h1.symm, h2.symm, ?_, ?_, ?_⟩
               · omega
@@ -277,9 +281,7 @@ theorem format_valid (c : CalOps) (L : CalLaws c) (calendar units : Str) (k : Ca
   have hr : refInstant c calendar units = some (c.toSec b.f - 60 * b.off, false) := by
     have hlo' : ¬ (c.toSec b.f - 60 * b.off < c.toSec firstFields ∨ c.toSec lastFields < c.toSec b.f - 60 * b.off) := by omega
     simp [refInstant, hk, hp, hu, bitsInstant, hval, hlo', hpy, hmic]
-  have hloc : c.ofSec (c.toSec b.f - 60 * b.off + 60 * b.off) = b.f := by
-    have : c.toSec b.f - 60 * b.off + 60 * b.off = c.toSec b.f := by omega
-    rw [this]; exact L.ofSec_toSec b.f hval
+  have hloc : c.ofSec (c.toSec b.f) = b.f := L.ofSec_toSec b.f hval
   have ho' : ¬ (1440 ≤ b.off.natAbs) := by omega
   simp [formatTimeUnits, formatCore, hp, ho', hr, hloc, hval]
 
@@ -304,7 +306,9 @@ theorem time_instants_preserved (c : CalOps) (L : CalLaws c) (calendar units out
     decodeValue c calendar out n = decodeValue c calendar units n := by
   obtain ⟨hi, _⟩ := same_instant c L calendar units out h
   obtain ⟨p, b, hp, hpo, _⟩ := same_zone c L calendar units out h
-  simp [decodeValue, hi, hp, hpo]
+  rcases hr : refInstant c calendar units with _ | ⟨t, mic⟩
+  · simp [decodeValue, hi, hr]
+  · cases mic <;> simp [decodeValue, hi, hp, hpo, hr]
 
 /-! ## `disable_default_fill_value` -/
 
@@ -329,7 +333,7 @@ theorem no_new_fill (v : VarDesc) (hyp : autoFills v.disk = true → promoteStab
     writesFill (disableDefaultFill v) = sourceHasFill v := by
   obtain ⟨mem, disk, enc, attr⟩ := v
   cases enc <;> cases attr <;> cases h : promoteStable mem <;> cases h' : autoFills disk <;>
-    simp_all [disableDefaultFill, writesFill, sourceHasFill]
+    simp_all [disableDefaultFill, writesFill, sourceHasFill] <;> decide
 
 /-- when a variable is written with its own dtype the hypothesis of `no_new_fill` holds -/
 theorem no_new_fill_same_dtype (v : VarDesc) (h : v.disk = v.mem) :
